@@ -354,7 +354,7 @@ def valid_case(case):
         if case["kind"] in ("insert_select",):
             return True
         return want <= set(declared) and set(d for d in declared if case["kind"] not in ("insert", "upsert") or True) <= want | set(declared[:1])
-    except Exception:
+    except (Exception, HarnessError):
         return False
 
 
